@@ -144,7 +144,7 @@ MembersAll == [Addr -> {-1, 0, 1, 2}]
 WeightsQ == {0, 2}
 WeightsT == {0, 1, 2}
 PeriodH1 == [k |-> "h", v |-> 1]
-PeriodT15 == [k |-> "t", v |-> 15]
+PeriodT15 == [k |-> "t", v |-> 20]
 NoMaxW == 0 - 1
 
 EmitSchedule ==
